@@ -67,6 +67,7 @@ PROPS["C18"] = {
     "units": [
         {"name": "exhaustive", "pkg": ".", "run": "TestVfC18Exhaustive", "kind": "plain", "checks": 0, "shards": T(4, 16), "timeout": T(600, 3000), "env": {"VERIF_C18_MAXN": T(4, 6)}},
         {"name": "sampled", "pkg": ".", "run": "TestVfC18Rapid", "checks": T(2000, 100000), "shards": T(4, 16), "timeout": T(600, 3000)},
+        {"name": "epoch-search", "pkg": ".", "run": "TestVfC18Epochs", "replay": "TestVfReplayC18Epochs", "checks": T(600, 40000), "shards": T(4, 16), "timeout": T(600, 3000), "env": ROOT_ENV},
     ],
 }
 
